@@ -165,7 +165,10 @@ def run(res):
         # ---- deviance: sum of generated (scaled) unit deviances
         if n <= 45 and (y > 0).all() or cls in ('LinearGAM', 'ExpectileGAM', 'LogisticGAM', 'PoissonGAM'):
             terms = ' + '.join('Gen_%s_deviance true %s 1 %s %s %s' % (fam, rlit(sc), rlit(a), rlit(b), rlit(c)) for a, b, c in zip(w, y, mu))
-            canc = float(np.sum(np.abs(w) * (np.abs(y) + np.abs(mu)) * 50)) / sc if fam in ('BinomialDist', 'PoissonDist', 'GammaDist') else 0.0
+            # cancellation scale of the unit deviance as the code evaluates it; binomial: (L - y) log((L - y) / (L - mu)) loses eps * L absolutely
+            # when mu (or L - mu) is tiny, whatever the size of y and mu
+            Lb = float(scn.get('levels', 1)) if fam == 'BinomialDist' else 0.0
+            canc = float(np.sum(np.abs(w) * (np.abs(y) + np.abs(mu) + Lb) * 50)) / sc if fam in ('BinomialDist', 'PoissonDist', 'GammaDist') else 0.0
             if math.isfinite(float(st['deviance'])):
                 goals.append(goal('(%s)' % terms, float(st['deviance']), canc * 1e-3)); gmeta.append(dict(d, stat='deviance', value=float(st['deviance'])))
             else:
